@@ -16,6 +16,7 @@ import re
 from typing import Dict, List, Optional, Tuple
 
 from ..front_py import AnalysisError, walk_local, norm
+from .dyn_codec import DynCodec, Undecided as DynUndecided
 
 TPL = "plugins/fcp_cpp/fcp_cpp/dynamic.h.j2"
 
@@ -153,11 +154,15 @@ CANON_ENC = {
 def run(eng, rep) -> None:
     prog = eng.prog
     rep.explanation = (
-        "The run-time (reflection-loaded) C++ codec lives in a template that is almost entirely C++ text. Its two dispatch chains and its "
-        "handlers are read as text (function bodies by brace matching) and reduced to transfer sequences, which are compared with the canonical "
-        "grammar that the static codec implements (C02/C03); the type tags it dispatches on are compared with the tags the Python type classes "
-        "put into reflection. The composition rule forbids building byte-padded private buffers and concatenating them, because fields must be "
-        "bit-contiguous. Nothing value-level (sign handling, enum naming, LoadBinarySchema's reconstruction) is decided."
+        "The run-time (reflection-loaded) C++ codec lives in a template that is almost entirely C++ text. It is instantiated abstractly "
+        "(every {{expr}} becomes the literal 0; the template is never rendered) and parsed by clang together with a stand-in reflection.h; "
+        "only LoadBinarySchema needs the generated reflection classes, every other member function gets a typed AST. From it the two "
+        "dispatch chains (tag -> handler) and the handlers' transfer sequences are extracted (widths resolved to what they denote, forwarding "
+        "handlers inlined) and compared with the canonical grammar that the static codec implements (C02/C03); the tags are compared with the "
+        "tags the Python type classes put into reflection; the JSON value category of each decode handler (type of the returned expression) "
+        "is compared with the static wrapper's. The composition rule forbids building byte-padded private buffers and concatenating them. "
+        "The enum width formula and the loader's per-declaration computations are read at text level. If clang cannot produce the AST the "
+        "text-level reading of the handlers (brace-matched bodies) is used instead."
     )
     rep.rule("R13.1", "Python type tags == tags of _Decode == tags of _Encode")
     rep.rule("R13.2", "decode handlers: canonical transfer sequence on the shared (by reference) bit cursor")
@@ -165,7 +170,7 @@ def run(eng, rep) -> None:
     rep.rule("R13.4", "enum width = canonical packed size")
     rep.rule("R13.5", "struct handlers iterate the reflected field vector in order")
     rep.rule("R13.6", "decoded JSON has the same value category in both codecs: signed fields signed integers, unsigned fields unsigned, sequences always arrays (types from the clang AST of the static wrappers and of Buffer::GetWord)")
-    rep.assume("enum naming, JSON conversions other than the value category (R13.6), LoadBinarySchema's reconstruction of type chains; text-level reading of the C++ (the template is not parseable by clang without rendering the reflection header)")
+    rep.assume("enum naming, JSON conversions other than the value category (R13.6), LoadBinarySchema's reconstruction of type chains (its body does not type-check against the stand-in reflection.h and is read at text level only)")
     src = eng.read(*TPL.split("/"))
     # ---- R13.1 ---------------------------------------------------------------------
     tags = set()
@@ -178,64 +183,13 @@ def run(eng, rep) -> None:
                 tags.add(n.value.value)
     rep.floor("R13.1", "type tags written by the Python type classes", len(tags), 10)
     fb = function_bodies(src)
-    chains = {}
-    for name in ("_Decode", "_Encode"):
-        body = fb.get(name)
-        if body is None:
-            raise AnalysisError("anchor vanished: %s in dynamic.h.j2" % name)
-        pairs = re.findall(r'type\.type\s*==\s*"(\w+)"\s*\)\s*\{\s*return\s+(\w+)\(', body)
-        chains[name] = dict(pairs)
-        got = set(chains[name])
-        rep.check(got == tags, "R13.1", TPL, name, "tags %s" % sorted(got), "== tags written by Python", "dispatch chain and Python disagree on type tags: only in Python %s, only in C++ %s (a field of that kind throws 'Unknown type' or is never reached)" % (sorted(tags - got), sorted(got - tags)))
-        rep.check("throw" in body, "R13.1", TPL, name, "fall-through throws", "unknown tag is an error", "unknown type tag is silently ignored")
-    # ---- R13.2 ---------------------------------------------------------------------
-    n = 0
-    for tag, h in sorted(chains["_Decode"].items()):
-        body = fb.get(h)
-        if body is None:
-            rep.violation("R13.2", TPL, h, "handler for tag %s" % tag, "dispatch names a handler that is not defined")
-            continue
-        params = fb.get(h + "#params", "")
-        rep.check("Buffer&" in params.replace(" ", ""), "R13.2", TPL, h, "(…, Buffer& buffer)", "shares the caller's bit cursor", "decode handler takes the buffer by value: the caller's cursor does not advance")
-        g = grammar(delegate(body, fb), "dec")
-        want = CANON_DEC.get(h)
-        n += 1
-        if want is None:
-            rep.undecided("R13.2", TPL, h, g, "no canonical grammar for this handler name")
-        else:
-            rep.check(g == want, "R13.2", TPL, h, g or "<nothing>", "= canonical %s" % want, "run-time decoder performs [%s], the static codec performs [%s]" % (g, want))
-    rep.floor("R13.2", "decode handlers", n, 10)
-    hs = chains["_Decode"].get("signed", "DecodeSigned")
-    dsig = fb.get(hs, "")
-    fwd = re.fullmatch(r"\s*return\s+(\w+)\s*\(([^;]*)\)\s*;\s*", dsig)
-    if re.search(r"GetWord\(\s*\w+\s*,\s*true", dsig):
-        rep.ok("R13.2", TPL, hs, "GetWord(size, true)", "sign extension requested")
-    elif fwd and fwd.group(1) in fb:
-        helper = fb[fwd.group(1)]
-        hp = [x.strip().split()[-1].lstrip("&*") for x in fb.get(fwd.group(1) + "#params", "").split(",") if x.strip()]
-        gm = re.search(r"GetWord\(\s*\w+\s*,\s*(\w+)", helper)
-        args = [a.strip() for a in fwd.group(2).split(",")]
-        if gm and gm.group(1) in hp and hp.index(gm.group(1)) < len(args):
-            a = args[hp.index(gm.group(1))]
-            rep.check(a == "true", "R13.2", TPL, hs, "%s(..., %s) -> GetWord(size, %s)" % (fwd.group(1), a, gm.group(1)), "sign extension requested through the helper", "signed fields are read without sign extension")
-        else:
-            rep.undecided("R13.2", TPL, hs, "sign extension", "handler forwards to %s; sign argument not resolved" % fwd.group(1))
-    else:
-        rep.violation("R13.2", TPL, hs, "GetWord(size, true)", "signed fields are read without sign extension")
-    json_rules(eng, rep, fb, chains)
-    # ---- R13.3 ---------------------------------------------------------------------
-    for tag, h in sorted(chains["_Encode"].items()):
-        body = fb.get(h)
-        if body is None:
-            rep.violation("R13.3", TPL, h, "handler for tag %s" % tag, "dispatch names a handler that is not defined")
-            continue
-        g = grammar(delegate(body, fb), "enc")
-        if "Insert" in g:
-            rep.violation("R13.3", TPL, h, "buffer.Insert(encoded…)", "sub-encodings are produced in private, byte-padded buffers and concatenated with Insert (which appends whole bytes and does not use the bit cursor): a field whose width is not a multiple of 8 is padded to a byte boundary, unlike the static codec")
-        else:
-            want = CANON_ENC.get(h)
-            g2 = g
-            rep.check(want is None or g2 == want, "R13.3", TPL, h, g or "<nothing>", "= canonical %s" % want, "run-time encoder performs [%s], the static codec performs [%s]" % (g, want))
+    typed = False
+    try:
+        typed = typed_rules(eng, rep, tags)
+    except (DynUndecided, AnalysisError) as e:
+        rep.info("R13.2", TPL, "-", "typed reading (clang AST of the abstract instance)", "not available (%s); falling back to the text-level reading" % str(e)[:160])
+    if not typed:
+        text_rules(eng, rep, src, fb, tags)
     # ---- R13.4 ---------------------------------------------------------------------
     for h in ("DecodeEnum", "EncodeEnum"):
         body = fb.get(h, "")
@@ -253,7 +207,7 @@ def run(eng, rep) -> None:
             rep.undecided("R13.4", TPL, h, "bitsize = %s" % e, "width formula not recognised")
     loader_rules(eng, rep, src)
     # ---- R13.5 ---------------------------------------------------------------------
-    for h in ("DecodeStruct", "EncodeStruct"):
+    for h in (() if typed else ("DecodeStruct", "EncodeStruct")):
         body = fb.get(h, "")
         ok = bool(re.search(r"for\s*\(\s*const\s+auto&\s+field\s*:\s*s\.fields\s*\)", body)) and not re.search(r"std::(sort|reverse)|rbegin", body)
         rep.check(ok, "R13.5", TPL, h, "for (const auto& field: s.fields)", "reflected order", "struct handler does not iterate the reflected field vector front to back")
@@ -401,3 +355,202 @@ def loader_rules(eng, rep, src: str) -> None:
             rep.violation("R13.4", TPL, "LoadBinarySchema", "`%s` declared before `for (%s :%s)` and assigned inside it" % (v, lm.group(1).strip()[:30], lm.group(2).strip()[:40]),
                           "a value computed while loading one declaration is carried over to the following ones (never reset): e.g. a running maximum makes every later enum as wide as the widest enum seen so far, unlike the static codec")
     rep.ok("R13.4", TPL, "LoadBinarySchema", "%d top-level loops over declarations scanned" % n_loops, "no scalar carried from one declaration to the next") if n_loops else rep.undecided("R13.4", TPL, "LoadBinarySchema", "loops over declarations", "none recognised")
+
+
+def text_rules(eng, rep, src, fb, tags) -> None:
+    """Fallback: R13.1-R13.3 and R13.6 read from the template text (brace-matched bodies), used when clang cannot
+    produce the typed AST of the abstract instance."""
+    chains = {}
+    for name in ("_Decode", "_Encode"):
+        body = fb.get(name)
+        if body is None:
+            raise AnalysisError("anchor vanished: %s in dynamic.h.j2" % name)
+        pairs = re.findall(r'type\.type\s*==\s*"(\w+)"\s*\)\s*\{\s*return\s+(\w+)\(', body)
+        chains[name] = dict(pairs)
+        got = set(chains[name])
+        rep.check(got == tags, "R13.1", TPL, name, "tags %s" % sorted(got), "== tags written by Python", "dispatch chain and Python disagree on type tags: only in Python %s, only in C++ %s (a field of that kind throws 'Unknown type' or is never reached)" % (sorted(tags - got), sorted(got - tags)))
+        rep.check("throw" in body, "R13.1", TPL, name, "fall-through throws", "unknown tag is an error", "unknown type tag is silently ignored")
+    # ---- R13.2 ---------------------------------------------------------------------
+    n = 0
+    for tag, h in sorted(chains["_Decode"].items()):
+        body = fb.get(h)
+        if body is None:
+            rep.violation("R13.2", TPL, h, "handler for tag %s" % tag, "dispatch names a handler that is not defined")
+            continue
+        params = fb.get(h + "#params", "")
+        rep.check("Buffer&" in params.replace(" ", ""), "R13.2", TPL, h, "(…, Buffer& buffer)", "shares the caller's bit cursor", "decode handler takes the buffer by value: the caller's cursor does not advance")
+        g = grammar(delegate(body, fb), "dec")
+        want = CANON_DEC.get(h)
+        n += 1
+        if want is None:
+            rep.undecided("R13.2", TPL, h, g, "no canonical grammar for this handler name")
+        else:
+            rep.check(g == want, "R13.2", TPL, h, g or "<nothing>", "= canonical %s" % want, "run-time decoder performs [%s], the static codec performs [%s]" % (g, want))
+    rep.floor("R13.2", "decode handlers", n, 10)
+    hs = chains["_Decode"].get("signed", "DecodeSigned")
+    dsig = fb.get(hs, "")
+    fwd = re.fullmatch(r"\s*return\s+(\w+)\s*\(([^;]*)\)\s*;\s*", dsig)
+    if re.search(r"GetWord\(\s*\w+\s*,\s*true", dsig):
+        rep.ok("R13.2", TPL, hs, "GetWord(size, true)", "sign extension requested")
+    elif fwd and fwd.group(1) in fb:
+        helper = fb[fwd.group(1)]
+        hp = [x.strip().split()[-1].lstrip("&*") for x in fb.get(fwd.group(1) + "#params", "").split(",") if x.strip()]
+        gm = re.search(r"GetWord\(\s*\w+\s*,\s*(\w+)", helper)
+        args = [a.strip() for a in fwd.group(2).split(",")]
+        if gm and gm.group(1) in hp and hp.index(gm.group(1)) < len(args):
+            a = args[hp.index(gm.group(1))]
+            rep.check(a == "true", "R13.2", TPL, hs, "%s(..., %s) -> GetWord(size, %s)" % (fwd.group(1), a, gm.group(1)), "sign extension requested through the helper", "signed fields are read without sign extension")
+        else:
+            rep.undecided("R13.2", TPL, hs, "sign extension", "handler forwards to %s; sign argument not resolved" % fwd.group(1))
+    else:
+        rep.violation("R13.2", TPL, hs, "GetWord(size, true)", "signed fields are read without sign extension")
+    json_rules(eng, rep, fb, chains)
+    # ---- R13.3 ---------------------------------------------------------------------
+    for tag, h in sorted(chains["_Encode"].items()):
+        body = fb.get(h)
+        if body is None:
+            rep.violation("R13.3", TPL, h, "handler for tag %s" % tag, "dispatch names a handler that is not defined")
+            continue
+        g = grammar(delegate(body, fb), "enc")
+        if "Insert" in g:
+            rep.violation("R13.3", TPL, h, "buffer.Insert(encoded…)", "sub-encodings are produced in private, byte-padded buffers and concatenated with Insert (which appends whole bytes and does not use the bit cursor): a field whose width is not a multiple of 8 is padded to a byte boundary, unlike the static codec")
+        else:
+            want = CANON_ENC.get(h)
+            g2 = g
+            rep.check(want is None or g2 == want, "R13.3", TPL, h, g or "<nothing>", "= canonical %s" % want, "run-time encoder performs [%s], the static codec performs [%s]" % (g, want))
+
+
+CANON_DEC_TAG = {
+    "unsigned": "W(width(type))", "signed": "W(width(type))", "float": "W(32)", "double": "W(64)",
+    "str": "W(32) Loop(count){W(8)}", "Array": "Loop(size(type)){Rec}", "DynamicArray": "W(32) Loop(count){Rec}",
+    "Optional": "W(8) If(present){Rec}", "Struct": "Loop(fields){Rec}", "Enum": "W(enumwidth)",
+}
+CANON_ENC_TAG = {
+    "unsigned": ("W(width(type))",), "signed": ("W(width(type))",), "float": ("W(32)",), "double": ("W(64)",),
+    "str": ("W(32) Loop(count){W(8)}",), "Array": ("Loop(size(type)){Rec}",), "DynamicArray": ("W(32) Loop(count){Rec}",),
+    "Optional": ("If(absent){W(8)} Else{W(8) Rec}", "If(present){W(8) Rec} Else{W(8)}"), "Struct": ("Loop(fields){Rec}",), "Enum": ("W(enumwidth)",),
+}
+
+
+def typed_rules(eng, rep, tags) -> bool:
+    """R13.1-R13.3, R13.5, R13.6 from the clang AST of the abstract instance of the template (sa/rules/dyn_codec.py)."""
+    from .cpp_codec import CppCodec
+    dc = DynCodec(eng)
+    if dc.foreign_errors:
+        raise DynUndecided("abstract instance has errors outside the loader: %s" % dc.foreign_errors[0][-120:])
+    rep.extra["dynamic_codec_methods"] = sorted(dc.methods)
+    chains = {}
+    for name in ("_Decode", "_Encode"):
+        if name not in dc.methods:
+            raise AnalysisError("anchor vanished: %s in dynamic.h.j2" % name)
+        d = dc.dispatch(name)
+        if d is None:
+            rep.undecided("R13.1", TPL, name, "dispatch", "not an if / else-if chain on type.type returning one handler call per tag")
+            chains[name] = {}
+            continue
+        chains[name], has_throw = d
+        got = set(chains[name])
+        rep.check(got == tags, "R13.1", TPL, name, "tags %s" % sorted(got), "== tags written by Python", "dispatch chain and Python disagree on type tags: only in Python %s, only in C++ %s (a field of that kind throws 'Unknown type' or is never reached)" % (sorted(tags - got), sorted(got - tags)))
+        rep.check(has_throw, "R13.1", TPL, name, "fall-through throws", "unknown tag is an error", "unknown type tag is silently ignored")
+    # ---- R13.2 decode handlers
+    n = 0
+    for tag, h in sorted(chains["_Decode"].items()):
+        ps = dc.params(h)
+        bufp = [p for p in ps if "Buffer" in p.qtype]
+        rep.check(bool(bufp) and "&" in bufp[0].qtype, "R13.2", TPL, h, "(…, Buffer& buffer)", "shares the caller's bit cursor", "decode handler takes the buffer by value: the caller's cursor does not advance")
+        n += 1
+        try:
+            g = dc.grammar(h)
+        except DynUndecided as e:
+            rep.undecided("R13.2", TPL, h, "handler for tag %s" % tag, str(e))
+            continue
+        want = CANON_DEC_TAG.get(tag)
+        if want is None:
+            rep.undecided("R13.2", TPL, h, g, "no canonical grammar for tag %s" % tag)
+        elif "?" in g:
+            rep.undecided("R13.2", TPL, h, g, "a width or count is not in a recognised form")
+        else:
+            rep.check(g == want, "R13.2", TPL, h, g or "<nothing>", "= canonical %s" % want, "run-time decoder performs [%s], the static codec performs [%s]" % (g, want))
+    rep.floor("R13.2", "decode handlers", n, 10)
+    for tag, want in (("signed", True), ("unsigned", False)):
+        h = chains["_Decode"].get(tag)
+        if h is None:
+            continue
+        sr = dc.sign_requested(h)
+        if sr is None:
+            rep.undecided("R13.2", TPL, h, "GetWord(size, sign)", "sign argument not resolved")
+        elif tag == "signed":
+            rep.check(sr is True, "R13.2", TPL, h, "GetWord(size, true)", "sign extension requested", "signed fields are read without sign extension")
+        else:
+            rep.check(sr is False, "R13.2", TPL, h, "GetWord(size)", "no sign extension for unsigned fields", "unsigned fields are read with sign extension: a value with the top bit set comes back with all higher bits set")
+    # ---- R13.6 JSON value category
+    try:
+        cc = CppCodec(eng)
+    except AnalysisError as e:
+        rep.undecided("R13.6", TPL, "-", "clang AST of the static wrappers", str(e)[:160])
+        cc = None
+    if cc is not None:
+        F2 = "plugins/fcp_cpp/fcp_cpp/decoders.h"
+        static = {}
+        for label, cls in cc.wrappers().items():
+            cat = cc.json_category(cls)
+            if cat is not None:
+                static.setdefault(label.split("<")[0], set()).add(cat)
+        gw = cc.getword_return() or ""
+        for tag, wrapper in (("signed", "Signed"), ("unsigned", "Unsigned"), ("DynamicArray", "DynamicArray"), ("Array", "Array")):
+            h = chains["_Decode"].get(tag)
+            if h is None:
+                continue
+            dcat, expr = dc.json_category(h)
+            sc = static.get(wrapper)
+            site = "tag %s: run-time %s returns %s; static %s::DecodeJson" % (tag, h, expr, wrapper)
+            if dcat is None or not sc or len(sc) != 1:
+                rep.undecided("R13.6", TPL, h, site, "value category not determined (run-time: %s, static: %s)" % (dcat, sorted(sc) if sc else None))
+                continue
+            sc1 = next(iter(sc))
+            if wrapper == "Array" and {dcat, sc1} <= {"array", "array-or-null"}:
+                rep.ok("R13.6", TPL, h, site, "fixed-size arrays have at least one element: both produce arrays")
+            elif dcat == sc1:
+                rep.ok("R13.6", TPL, h, site, "both produce %s" % dcat)
+            elif {dcat, sc1} == {"signed", "unsigned"}:
+                rep.violation("R13.6", TPL, h, "tag %s: run-time %s returns %s (%s)" % (tag, h, expr, dcat),
+                              "the run-time decoder hands json a %s 64-bit integer (Buffer::GetWord returns %s) where the static codec produces a %s value: %s" % (
+                                  dcat, gw, sc1, "a negative field decodes as 2^64 - |v|" if dcat == "unsigned" else "an unsigned field with the top bit set decodes as a negative number"))
+            elif {dcat, sc1} == {"array", "array-or-null"}:
+                rep.violation("R13.6", F2 if sc1 == "array-or-null" else TPL, "%s::DecodeJson" % wrapper if sc1 == "array-or-null" else h, "empty sequence: %s produces null, %s produces []" % (("static", "run-time") if sc1 == "array-or-null" else ("run-time", "static")),
+                              "one codec builds the JSON by push_back into a default-constructed json (null when there are no elements), the other returns a vector (always an array): an empty dynamic array decodes to different values")
+            else:
+                rep.undecided("R13.6", TPL, h, site, "categories differ (%s / %s) in a way not decided" % (dcat, sc1))
+    # ---- R13.3 encode handlers
+    for tag, h in sorted(chains["_Encode"].items()):
+        try:
+            g = dc.grammar(h)
+        except DynUndecided as e:
+            rep.undecided("R13.3", TPL, h, "handler for tag %s" % tag, str(e))
+            continue
+        if "Insert" in g:
+            rep.violation("R13.3", TPL, h, "buffer.Insert(encoded…)", "sub-encodings are produced in private, byte-padded buffers and concatenated with Insert (which appends whole bytes and does not use the bit cursor): a field whose width is not a multiple of 8 is padded to a byte boundary, unlike the static codec")
+            continue
+        want = CANON_ENC_TAG.get(tag)
+        if want is None:
+            rep.undecided("R13.3", TPL, h, g, "no canonical grammar for tag %s" % tag)
+        elif "?" in g:
+            rep.undecided("R13.3", TPL, h, g, "a width or count is not in a recognised form")
+        else:
+            rep.check(g in want, "R13.3", TPL, h, g or "<nothing>", "= canonical %s" % want[0], "run-time encoder performs [%s], the static codec performs [%s]" % (g, want[0]))
+    # ---- R13.5 reflected order
+    from ..front_clang import walk as cwalk
+    for side in ("_Decode", "_Encode"):
+        h = chains[side].get("Struct")
+        if h is None or dc.body(h) is None:
+            continue
+        loops = [y for y in cwalk(dc.body(h)) if y.kind == "CXXForRangeStmt"]
+        fl = [l for l in loops if any(z.kind == "MemberExpr" and z.get("name") == "fields" for d_ in l.inner if d_.kind == "DeclStmt" for z in cwalk(d_))]
+        reorder = [y for y in cwalk(dc.body(h)) if y.kind == "DeclRefExpr" and y.get("referencedDecl", {}).get("name") in ("sort", "stable_sort", "reverse", "rbegin", "rend", "reverse_copy")]
+        if fl and not reorder:
+            rep.ok("R13.5", TPL, h, "for (const auto& field: s.fields)", "reflected order")
+        elif reorder:
+            rep.violation("R13.5", TPL, h, "for (const auto& field: s.fields)", "struct handler does not iterate the reflected field vector front to back")
+        else:
+            rep.undecided("R13.5", TPL, h, "iteration over the struct's fields", "no range-for over the reflected field vector found")
+    return True
